@@ -422,9 +422,16 @@ def full_collect():
             break
 
 
+VALS = (0.0, 1.0, 2.0)
+
+
 def new_array(k, rng):
     # same shape/dtype for both slots: the allocator recycles freed blocks of this size readily
-    return np.arange(6.0).reshape(2, 3) + float(rng.randrange(0, 3))
+    # one allocation, nothing in between: the freed ndarray object of the previous array is what the
+    # allocator hands out next
+    a = np.empty((2, 3))
+    a.fill(VALS[rng.randrange(0, 3)])
+    return a
 
 
 # ----------------------------------------------------------------------------------------------
@@ -699,11 +706,13 @@ class Run:
 
     def alloc_array(self, k):
         w = self.w
-        if k in w.A:
+        had = k in w.A
+        if had:
             del w.A[k]
+        w.A[k] = new_array(k, self.rng)      # right after the release: provoke address reuse
+        if had:
             self.req.append(["drop", k])
             self.req.append(["sweep"])
-        w.A[k] = new_array(k, self.rng)
         self.req.append(["alloc", k, w.ids(w.A[k])])
         self.tracked_arr.append((self.nobs, k, weakref.ref(w.A[k])))
 
@@ -1047,6 +1056,90 @@ def sym_json(hist):
     return [list(s) for s in hist]
 
 
+
+# ----------------------------------------------------------------------------------------------
+# beyond the model: fresh binders (alpha-mangling aliases a second key to the mangled object)
+# ----------------------------------------------------------------------------------------------
+
+def _binder_round(rng):
+    """One round of direct identity checks on Reduce/Lambda with *unmangled* bound names.
+    Returns None or a description of what failed.  All locals die with the frame."""
+    interp = rng.choice([reflect, lazy])
+    name = rng.choice(["i", "j", "k"])
+    op = rng.choice([ops.add, ops.mul, ops.max])
+    with reflect:
+        x = Variable("x", Real)
+        i = Variable(name, Bint[2])
+        body = Binary(ops.lt, x, i)
+    with interp:
+        r1 = Reduce(op, body, frozenset({i}))
+        r2 = Reduce(op, body, frozenset({i}))
+        l1 = Lambda(i, body)
+        l2 = Lambda(i, body)
+    if r1 is not r2 or l1 is not l2:
+        return "binder term built twice from the same arguments gave two objects"
+    if not all("__BOUND" in n for n in r1.bound) or name in r1.inputs:
+        return "bound name was not mangled"
+    with reflect:
+        if pickle.loads(pickle.dumps(r1)) is not r1:
+            return "pickle round trip of a mangled Reduce is a different object"
+        if reinterpret(r1) is not r1 or reinterpret(l1) is not l1:
+            return "reinterpret of a mangled binder term is a different object"
+        if Reduce(*r1._ast_values) is not r1:
+            return "Reduce(*r._ast_values) is not r"
+    n_entries = len(Reduce._cons_cache)
+    if n_entries != 2:
+        return f"expected 2 Reduce entries (requested key + mangled key) for one object, found {n_entries}"
+    return None
+
+
+def binder_stream(ctx, n):
+    for _ in range(n):
+        v = _binder_round(ctx.rng)
+        full_collect()
+        if v is None:
+            left = len(Reduce._cons_cache) + len(Lambda._cons_cache) + len(Binary._cons_cache) \
+                + len(Variable._cons_cache)
+            if left:
+                v = f"{left} cons-cache entries survive dropping every binder term + gc"
+        if v:
+            ctx.fail("input", "C07.binder", witness={"stream": "binder", "what": v}, got=v,
+                     expected="identity for equal arguments / weak entries (alpha-mangled binders)",
+                     python="# see fv/harness/c07.py:_binder_round\nFAILS = True\n")
+            return
+        ctx.count("beyond-model:binder-round-ok")
+
+
+def observations(ctx):
+    """Design-phase observations, re-measured every run and *counted*, not gated (they concern calls the
+    constructors would reject, or are the documented 'arrays by identity' reading)."""
+    obs = {}
+    a = np.empty((2, 3))
+    t = Tensor(a)
+    try:
+        obs["Tensor(id(arr)) is Tensor(arr)"] = Tensor(id(a)) is t
+    except Exception as e:
+        obs["Tensor(id(arr)) is Tensor(arr)"] = f"raises {type(e).__name__}"
+    d = Bint[7]
+    try:
+        obs["Array[7.0, ()] while Bint[7] is live"] = "is Bint[7]" if Array[7.0, ()] is d else "other"
+    except Exception as e:
+        obs["Array[7.0, ()] while Bint[7] is live"] = f"raises {type(e).__name__}"
+    obs["pickle round trip of a Tensor is the same object"] = pickle.loads(pickle.dumps(t)) is t
+    obs["Number(-0.0) is Number(0.0)"] = Number(-0.0) is Number(0.0)
+    obs["Number(1) is Number(1.0) is Number(True)"] = Number(1) is Number(1.0) and Number(1) is Number(True)
+    obs["Number(float('nan')) is Number(float('nan'))"] = Number(float("nan")) is Number(float("nan"))
+    obs["Number(math.nan) is Number(math.nan)"] = Number(math.nan) is Number(math.nan)
+    del a, t, d
+    full_collect()
+    try:
+        Array[7.0, ()]
+        obs["Array[7.0, ()] after Bint[7] died"] = "returns a domain"
+    except Exception as e:
+        obs["Array[7.0, ()] after Bint[7] died"] = f"raises {type(e).__name__}"
+    ctx.extra["observations"] = obs
+    full_collect()
+
 # ----------------------------------------------------------------------------------------------
 # correspond
 # ----------------------------------------------------------------------------------------------
@@ -1109,7 +1202,7 @@ def run_batch(ctx, w, hists, label):
         if diff is not None:
             what, k, exp, got = diff
             note = f"{what} after step {k - 1} ({hist[k - 1] if 0 < k <= len(hist) else 'prelude'})"
-            ctx.fail("input", f"C07.{what.split(':')[0]}",
+            ctx.fail("input", f"C07.{what.split(':')[0].replace('table', 'intern-table')}",
                      witness={"history": sym_json(hist[:k]), "stream": label, "what": what},
                      expected=f"model: {exp}", got=f"funsor: {got}",
                      python=python_snippet(hist[:k], note) +
@@ -1124,7 +1217,7 @@ def run_batch(ctx, w, hists, label):
 
 def recycling_stats(ctx, w, runs):
     """How often did the allocator really hand an address out again?  (measured input distribution)"""
-    n = 0
+    n = na = 0
     for run in runs:
         seen = set()
         for st in run.req:
@@ -1132,8 +1225,11 @@ def recycling_stats(ctx, w, runs):
                 i = st[-1] if st[0] == "mk" else st[2]
                 if i in seen:
                     n += 1
+                    if st[0] == "alloc":
+                        na += 1
                 seen.add(i)
     ctx.count("address-reused-within-history", n)
+    ctx.count("array-address-reused-within-history", na)
 
 
 def correspond(ctx):
@@ -1157,7 +1253,11 @@ def correspond(ctx):
         warm_up_and_pin(w, ctx.rng)
         base = w.total_funsor_entries()
         if base != 0:
-            ctx.infra_errors.append(f"funsor cons caches not empty at baseline ({base} entries)")
+            # every handle of the warm-up was dropped and the collector ran: entries that are still there
+            # are not weakly held (or something else keeps terms alive) — let `search` pin it down
+            ctx.fail("correspondence", "C07.warmup-not-reclaimed",
+                     expected="all funsor cons caches empty after dropping every handle + gc",
+                     got=f"{base} entries left")
             return
         core = [r for r in RECIPES if r.core]
         depth = 3 if ctx.tier == "quick" else 4
@@ -1176,6 +1276,9 @@ def correspond(ctx):
             all_runs += run_batch(ctx, w, rh[i:i + 100], "random")
             if len([f for f in ctx.failures if f.witness is not None]) >= 5:
                 break
+        if not [f for f in ctx.failures if f.witness is not None]:
+            binder_stream(ctx, 40 if ctx.tier == "quick" else 400)
+            observations(ctx)
         ctx.exhaustive = False
         ctx.extra["exhaustive_depth"] = depth
         ctx.extra["core_alphabet"] = [r.name for r in core]
